@@ -2,4 +2,6 @@
 from contracts.C03_series_validate import SeriesSchemaValidate
 from contracts.C04_polars_api import CONTRACTS as POLARS_API
 
-CONTRACTS = [SeriesSchemaValidate] + list(POLARS_API)
+from contracts.C03_polars_container_validate import DEPTH_CONTRACTS
+
+CONTRACTS = [SeriesSchemaValidate] + list(POLARS_API) + list(DEPTH_CONTRACTS)
